@@ -30,6 +30,9 @@ type solverSpec struct {
 var solvers = []solverSpec{
 	{"z3-new", func(f string, ms int) []string { return []string{"z3-new", "-T:" + itoa(ms/1000+1), "-t:" + itoa(ms), f} }},
 	{"z3", func(f string, ms int) []string { return []string{"z3", "-T:" + itoa(ms/1000+1), "-t:" + itoa(ms), f} }},
+	{"z3-new-ematch", func(f string, ms int) []string {
+		return []string{"z3-new", "-T:" + itoa(ms/1000+1), "-t:" + itoa(ms), "smt.mbqi=false", "smt.auto_config=false", f}
+	}},
 	{"cvc5", func(f string, ms int) []string {
 		return []string{"cvc5", "--produce-models", "--tlimit=" + itoa(ms), f}
 	}},
